@@ -357,6 +357,32 @@ pub struct OrderedAMUdt {
     pub d: bool,
 }
 
+/// `OrderedAMDN` (UDT side only): enforce_order; a and d `allow_missing` + `default_when_null` (reading), b optional, c
+/// `allow_missing`. The serializing twin has no `default_when_null` (that derive does not know the attribute).
+#[derive(DeserializeValue, Debug, PartialEq, Default, Clone)]
+#[scylla(crate = scylla_cql, flavor = "enforce_order")]
+pub struct OrderedAMDNDe {
+    #[scylla(allow_missing, default_when_null)]
+    pub a: i32,
+    pub b: Option<String>,
+    #[scylla(allow_missing)]
+    pub c: i64,
+    #[scylla(allow_missing, default_when_null)]
+    pub d: bool,
+}
+
+#[derive(SerializeValue, Debug, PartialEq, Default, Clone)]
+#[scylla(crate = scylla_cql, flavor = "enforce_order")]
+pub struct OrderedAMDNSer {
+    #[scylla(allow_missing)]
+    pub a: i32,
+    pub b: Option<String>,
+    #[scylla(allow_missing)]
+    pub c: i64,
+    #[scylla(allow_missing)]
+    pub d: bool,
+}
+
 /// `NameAM` (UDT side only): match_by_name with `allow_missing` on b and d, both directions.
 #[derive(SerializeValue, DeserializeValue, Debug, PartialEq, Default, Clone)]
 #[scylla(crate = scylla_cql)]
@@ -424,6 +450,8 @@ impl Abs4 for Flat2 {
 }
 
 impl_abs4!(
+    OrderedAMDNDe,
+    OrderedAMDNSer,
     OrderedAMUdt,
     NameAMUdt,
     OrderedRenamedSkip,
